@@ -35,6 +35,9 @@ type ConnSet struct {
 	Conns []*LConn
 	First string
 	nOpen int
+	// Together makes OpenEv offer one event that opens every connection not yet opened, back to back
+	// (applications connecting at the same instant).
+	Together bool
 	// Order, if set, is the order in which OpenEv opens the connections (a permutation of their indexes).
 	Order []int
 	// KeySpan is how many accept indexes of a target an application must be able to recognise.
@@ -119,6 +122,19 @@ func (cs *ConnSet) AllOpened() bool { return cs.nOpen == len(cs.Conns) }
 func (cs *ConnSet) OpenEv(before func(i int)) []Ev {
 	if cs.nOpen >= len(cs.Conns) {
 		return nil
+	}
+	if cs.Together {
+		return []Ev{{Kind: "app", Desc: fmt.Sprintf("open conns %d.. together", cs.nOpen), key: "o-all", Do: func() {
+			for cs.nOpen < len(cs.Conns) {
+				i := cs.nOpen
+				if before != nil {
+					before(i)
+				}
+				if !cs.Open(i) {
+					return
+				}
+			}
+		}}}
 	}
 	i := cs.nOpen
 	if len(cs.Order) == len(cs.Conns) {
